@@ -80,3 +80,11 @@ From XcpPins Require Import Pin_operations_tree_walker.
 Theorem C08_src_pin_operations_tree_walker : pin_unchanged name_operations_tree_walker.
 Proof. exact pin_operations_tree_walker. Qed.
 Print Assumptions C08_src_pin_operations_tree_walker.
+
+(* ---- what xcp does with what it finds at the mapped destination (DestMatrix.v; every cell compared with the binary
+   on every run) ---- *)
+From XcpModel Require Import DestMatrix.
+From XcpProofs Require Import DestMatrixProofs.
+Theorem C08_whatever_exists_is_refused : forall s d, d <> DAbsent -> dest_outcome s d ONoClobber = Refused.
+Proof. exact noclobber_refuses_everything_existing. Qed.
+Print Assumptions C08_whatever_exists_is_refused.
